@@ -62,6 +62,68 @@ Theorem C02_step_eq_dummy_step : forall (ws : list wstate) (acts : list Z),
 Proof. exact subproc_step_eq_dummy_step. Qed.
 Print Assumptions C02_step_eq_dummy_step.
 
+(* --- index-subset methods (get_attr / set_attr / env_method / ... over ANY list of in-range indices, any
+       order, repetitions allowed) and whole histories, for all numbers of workers --- *)
+Theorem C02_targets_method_is_the_loop : forall (W C R : Type) (wstep : W -> C -> W * R)
+  (ts : list nat) (sts : list W) (payload : nat -> C) (lg : list (nat * R)),
+  Forall (fun t => t < length sts) ts ->
+  seq_exec wstep (mk_sconfig lg (map (fun s => mk_sworker [] s) sts)) (sends ts payload ++ recvs ts)
+  = Some (mk_sconfig (lg ++ combine ts (snd (dloop wstep sts ts payload)))
+                     (map (fun s => mk_sworker [] s) (fst (dloop wstep sts ts payload)))).
+Proof. exact (@seq_targets_method). Qed.
+Print Assumptions C02_targets_method_is_the_loop.
+
+Theorem C02_history_any_schedule : forall (W C R : Type) (wstep : W -> C -> W * R)
+  (calls : list (list nat * (nat -> C))) (sts : list W) (sched : list action) (cfg' : config W C R),
+  calls_in_range (length sts) calls ->
+  exec wstep (init (history_prog calls) sts) sched = Some cfg' -> pc cfg' = [] ->
+  log cfg' = snd (dhistory wstep sts calls).
+Proof. exact (@history_any_schedule). Qed.
+Print Assumptions C02_history_any_schedule.
+
+Theorem C02_history_no_deadlock : forall (W C R : Type) (wstep : W -> C -> W * R)
+  (calls : list (list nat * (nat -> C))) (sts : list W) (sched : list action) (cfg : config W C R),
+  calls_in_range (length sts) calls ->
+  exec wstep (init (history_prog calls) sts) sched = Some cfg ->
+  exists sched' cfg', exec wstep cfg sched' = Some cfg' /\ pc cfg' = [] /\ log cfg' = snd (dhistory wstep sts calls).
+Proof. exact (@history_no_deadlock). Qed.
+Print Assumptions C02_history_no_deadlock.
+
+(* the programs the harness evaluates (built from the regenerated skeletons): every schedule, no deadlock *)
+Theorem C02_scripted_history_any_schedule : forall scs flags cs sched cfg',
+  let n := length scs in
+  let prog := calls_prog n (repeat None n) (repeat None n) cs in
+  Forall (call_targets_ok n) cs ->
+  exec sworker_step (init prog (winitw scs flags)) sched = Some cfg' -> pc cfg' = [] ->
+  log cfg' = snd (dhistory sworker_step (winitw scs flags) (calls_methods n (repeat None n) (repeat None n) cs)).
+Proof. exact scripted_history_any_schedule. Qed.
+Print Assumptions C02_scripted_history_any_schedule.
+
+Theorem C02_scripted_history_no_deadlock : forall scs flags cs sched cfg,
+  let n := length scs in
+  let prog := calls_prog n (repeat None n) (repeat None n) cs in
+  Forall (call_targets_ok n) cs ->
+  exec sworker_step (init prog (winitw scs flags)) sched = Some cfg ->
+  exists sched' cfg', exec sworker_step cfg sched' = Some cfg' /\ pc cfg' = [] /\
+    log cfg' = snd (dhistory sworker_step (winitw scs flags) (calls_methods n (repeat None n) (repeat None n) cs)).
+Proof. exact scripted_history_no_deadlock. Qed.
+Print Assumptions C02_scripted_history_no_deadlock.
+
+Theorem C02_reset_eq_dummy_reset : forall (ws : list wstate) (seeds opts : list (option Z)),
+  length seeds = length ws -> length opts = length ws ->
+  let n := length ws in
+  let r := reset_loop (A:=Z) sc_reset (map ws_env ws) seeds opts in
+  exists sq,
+    seq_exec sworker_step (mk_sconfig [] (map (fun s => mk_sworker [] s) ws))
+             (sends (seq 0 n) (fun i => CmdReset (nth i seeds None) (nth i opts None)) ++ recvs (seq 0 n)) = Some sq /\
+    map fst (s_log sq) = seq 0 n /\
+    map snd (s_log sq) = map rreply_of (combine (snd (fst r)) (snd (fst (fst r)))) /\
+    map (fun w => ws_env (sw_st w)) (s_workers sq) = fst (fst (fst r)) /\
+    map (fun w => ws_ri (sw_st w)) (s_workers sq) = snd (fst (fst r)) /\
+    Forall (fun w => sw_queue w = []) (s_workers sq).
+Proof. exact subproc_reset_eq_dummy_reset. Qed.
+Print Assumptions C02_reset_eq_dummy_reset.
+
 (* --- the communication skeleton regenerated from subproc_vec_env.py is the one of the model --- *)
 Theorem C02_fragment_skeletons :
   skel_step_async ++ skel_step_wait = model_skel_step /\ skel_reset = model_skel_reset /\
@@ -108,3 +170,10 @@ Proof. vm_compute. repeat split; reflexivity. Qed.
 (* ... and a recv without its send is a program that cannot run (the hypothesis of C02_no_deadlock is needed) *)
 Example ex_unbalanced : seq_exec sworker_step (sinit (winit [ex_scA])) [Recv 0] = None.
 Proof. reflexivity. Qed.
+
+(* the index-subset calls of the example are in range (repeated and unsorted indices included) *)
+Example ex_targets_ok : Forall (call_targets_ok 2) ex_calls /\ Forall (call_targets_ok 2) [KaGetAttr [1; 1; 0]; KaSetAttr 3 [1; 0]].
+Proof. split; repeat constructor. Qed.
+Example ex_dhistory : snd (dhistory sworker_step (winit [ex_scA; ex_scB]) (calls_methods 2 [None; None] [None; None] ex_calls))
+                      = snd (run_subproc_scripted [ex_scA; ex_scB] ex_calls [3; 1; 4; 1; 5; 9; 2; 6]).
+Proof. vm_compute. reflexivity. Qed.
